@@ -278,6 +278,63 @@ func refusedBody(viaSession bool) func(s *vsched.Sched) {
 	}
 }
 
+// applyRefusalBody: the prefix holds a key with two suffixes; a subscriber is attached; a sequential put with one
+// delta is accepted into the log and refused when it is applied (too few deltas for the keys of the prefix). No key
+// was generated: the subscriber must still hold the latest generated key afterwards.
+func applyRefusalBody() func(s *vsched.Sched) {
+	return func(s *vsched.Sched) {
+		s.Explore(false)
+		env := oxc.NewEnv(s)
+		kvf := oxc.NewObsFactory(env.Dir)
+		lc, err := server.NewLeaderController(server.Config{NotificationsRetentionTime: time.Hour}, "ns", 1, oxc.NewNet(), env.WalFactory("n1", 64*1024, true), kvf)
+		if err == nil {
+			_, err = lc.NewTerm(&proto.NewTermRequest{Namespace: "ns", Shard: 1, Term: 1, Options: &proto.NewTermOptions{EnableNotifications: true}})
+		}
+		if err == nil {
+			_, err = lc.BecomeLeader(context.Background(), &proto.BecomeLeaderRequest{Namespace: "ns", Shard: 1, Term: 1, ReplicationFactor: 1, FollowerMaps: map[string]*proto.EntryId{}})
+		}
+		if err != nil {
+			s.Fail("harness-setup", err.Error())
+			return
+		}
+		two := seqPut()
+		two.Puts[0].SequenceKeyDelta = []uint64{1, 1}
+		r, err := lc.WriteBlock(context.Background(), two)
+		if err != nil || len(r.Puts) != 1 || r.Puts[0].Status != proto.Status_OK {
+			s.Fail("harness-setup", fmt.Sprintf("%v %v", r, err))
+			return
+		}
+		highest := r.Puts[0].GetKey()
+		last := ""
+		var seen []string
+		ctx, cancel := context.WithCancel(context.Background())
+		vsched.Go(func() { subscribe(ctx, lc, func(k string) { last = k; seen = append(seen, k) }) })
+		s.Settle()
+		s.Explore(true)
+		outcome := ""
+		vsched.Go(func() {
+			r, err := lc.WriteBlock(context.Background(), seqPut())
+			switch {
+			case err != nil:
+				outcome = "refused: " + err.Error()
+			case len(r.Puts) == 1 && r.Puts[0].Status == proto.Status_OK:
+				outcome = "created " + r.Puts[0].GetKey()
+				highest = r.Puts[0].GetKey()
+			default:
+				outcome = fmt.Sprint(r)
+			}
+		})
+		s.Settle()
+		s.Explore(false)
+		if last != highest {
+			s.Fail("subscriber-missed-latest-key", fmt.Sprintf("prefix with the key %q, then a sequential put with one delta (%s): the latest generated key is %q, the subscriber was sent %q and holds %q at quiescence", highest, outcome, highest, seen, last))
+		}
+		s.Data = fmt.Sprintf("last=%s highest=%s outcome=%s", last, highest, outcome)
+		cancel()
+		_ = lc.Close()
+	}
+}
+
 func scenarios(tier string) []sched.Scenario {
 	cfg := vsched.Config{MaxSteps: 50000}
 	out := []sched.Scenario{
@@ -288,6 +345,7 @@ func scenarios(tier string) []sched.Scenario {
 		{Name: "subscription-across-deletes", Cfg: cfg, MaxDev: 2, Body: deletesBody()},
 		{Name: "batch-last-seqput-refused-version", Cfg: cfg, MaxDev: 2, Body: refusedBody(false)},
 		{Name: "batch-last-seqput-refused-session", Cfg: cfg, MaxDev: 2, Body: refusedBody(true)},
+		{Name: "seqput-refused-when-applied", Cfg: cfg, MaxDev: 2, Body: applyRefusalBody()},
 	}
 	if tier == "thorough" {
 		out[0].MaxDev = 3
